@@ -557,7 +557,8 @@ def advanceView (k : Keys) (c : RCfg) (si : SyncInfo) : M Unit := do
     | none => pure ()
     let s ← get
     if view < s.view then return
-    let newView := s.view + 1
+    -- `EnterViewAfter(view)`: the view after the certificate's, not just one view on
+    let newView := view + 1
     modify fun s => { s with view := newView, lastTimeout := none, ghost := s.ghost ++ [.adv s.view view timeout] }
     addEvent (.viewChange newView timeout)
     let leader := c.leader newView
